@@ -44,7 +44,23 @@ impl Ctx {
         self.out.case("fp", &[v.to_string(), hx(b)], &[], &format!("{} {}", hx(&fp), hx(&kid)), Some(same_ser && fp == want && kid_ok), cls);
     }
 
+    /// the value types as they are reported in text: all octets, two hex digits each (a key id that starts with a zero
+    /// nibble is still 16 digits; it is the tail / head of the printed fingerprint)
+    fn reported(&mut self, fp: &pgp::types::Fingerprint, kid: &pgp::types::KeyId, cls: &str) {
+        let r = guarded(|| {
+            let k = (format!("{kid}"), format!("{kid:?}"));
+            let f = (format!("{fp}"), format!("{fp:x}"), format!("{fp:X}"));
+            let hk = hx(kid.as_ref()); let hf = hx(fp.as_bytes());
+            let ok = k.0.eq_ignore_ascii_case(&hk) && k.1.to_ascii_lowercase().contains(&hk) && f.0.eq_ignore_ascii_case(&hf) && f.1 == hf && f.2 == hf.to_ascii_uppercase();
+            (format!("key id {} / {} fingerprint {}", k.0, k.1, f.0), ok)
+        });
+        let (imp, ok) = match r { Ok(x) => x, Err(p) => (p, false) };
+        self.out.case("", &[], &["reported".into(), hx(fp.as_bytes()), hx(kid.as_ref())], &imp, Some(ok), &format!("{cls}-reported-in-text"));
+    }
+
     fn cert(&mut self, pk: &SignedPublicKey, sk: Option<&SignedSecretKey>, cls: &str) {
+        self.reported(&pk.fingerprint(), &pk.legacy_key_id(), cls);
+        for s in &pk.public_subkeys { let (f, k) = (s.key.fingerprint(), s.key.legacy_key_id()); self.reported(&f, &k, cls); }
         self.key(&pk.primary_key, None, cls);
         for s in &pk.public_subkeys { self.key(&s.key, None, cls); }
         // stable: secret key, its public half, and a re-parsed copy agree
@@ -424,6 +440,15 @@ fn main() {
                     }
                 }
             } }
+        }
+    }
+
+    // the value types on their own: key ids with zero nibbles in every position, the wildcard, fingerprints with leading zeros
+    {
+        for pat in [[0u8; 8], [0, 0, 0, 0, 0, 0, 0, 1], [0x03, 0x16, 0x5d, 0xcf, 0x16, 0x14, 0x1b, 0x37], [0x0f, 0xff, 0xff, 0xff, 0xff, 0xff, 0xff, 0xf0], [0xf0, 0, 0, 0, 0, 0, 0, 0x0f], [0x10, 0x01, 0x10, 0x01, 0x10, 0x01, 0x10, 0x01]] {
+            let kid = pgp::types::KeyId::from(pat);
+            let mut fpb = vec![0u8, 0x0a]; fpb.extend_from_slice(&[0x11; 10]); fpb.extend_from_slice(&pat);
+            if let Ok(fp) = pgp::types::Fingerprint::new(KeyVersion::V4, &fpb) { cx.reported(&fp, &kid, "value-types"); }
         }
     }
 
